@@ -7,6 +7,18 @@ CLAIMS = {
          'Model is hand-written; correspondence is bounded differential testing. sha256 / RSA verification / base64 are oracles (uninterpreted in the theorems).'),
  'C02': ('proof', 'I-ban invariant for every call, ban monotonicity within a release, failure and crash detection ban the booting number, offers of a banned number answer bad-patch with no download, and C02_banned_forever over all histories within the release; correspondence on failure/kill at every position x continuations.',
          'Model hand-written; correspondence bounded. Quantifies over histories without outside damage to the two state files, as the property does.'),
+ 'C05': ('proof', 'C05_installed_only_if_verified (installed => inflate ok, digest equals advertised hash, recorded meta and artifact are that file), C05_rejected_download_frame, C05_failed_update_unchanged; correspondence on byte-level mutants of genuine zstd+bidiff patches, wrong base, hash-string variants through the real inflate path.',
+         'zstd decoding (incl. partial output on failure) and sha256 are oracles; the bipatch reader is modelled (Codec.v) and runs on the real decompressed bytes.'),
+ 'C06': ('proof', 'Error frames for check failure, contradictory response and download failure, C06_failed_update_unchanged and C06_then_healthy_installs proved on the model; correspondence with failures injected at each network callback from lifecycle states. PARTIAL: the reqwest transport (sockets, HTTP statuses, body parsing) is not modelled; only the updater logic above the callbacks is proved.',
+         'Transport layer is outside the model (labelled partial).'),
+ 'C07': ('proof', 'C07_reported_is_signed (signature verifies over the hash of the CURRENT bytes), C07_fallback_same, C07_bad_key_rejects; correspondence with 10 signature variants x 4 configured keys and same-size/different-size tampering.',
+         'RSA (ring) and base64 are oracles: the theorems are about what the updater does with their verdict.'),
+ 'C08': ('proof', 'C08_release_change_init, C08_first_queries, C08_any_section_resets, C08_old_numbers_are_fresh; correspondence over every depth-k old-release history x upgrade/downgrade. The crash-interrupted first launch is decided under C04.',
+         'Sequential part here; crash window under C04.'),
+ 'C14': ('proof', 'C14_init_inert: step w (OInit ..) = (w, false, []) for every world with a configuration (whole world equal); C14_cfg_preserved. Correspondence: second init with 6 parameter variants at every position of exhaustive histories, disk snapshot equality.',
+         'Model hand-written; correspondence bounded.'),
+ 'C20': ('proof', 'C20_request (formula for every request of every call), C20_config_from_init (channel precedence), C20_no_leak (all histories without process end); correspondence with random unicode strings and interleaved channels, requests captured as serialised by the library.',
+         'platform/arch are compile-time constants checked by the harness (linux/x86_64), not modelled.'),
 }
 NA = {}
 def main():
